@@ -37,6 +37,11 @@ func (c *FnCtx) computeLoopMods() {
 				case *ssa.Defer:
 					cc = &x.Call
 				}
+				if cc != nil && c.Spec != nil && c.Spec.Pure && !cc.IsInvoke() && cc.StaticCallee() == nil {
+					if _, isBuiltin := cc.Value.(*ssa.Builtin); !isBuiltin {
+						cc = nil // function declared pure: its callbacks are assumed pure (stated in the contract)
+					}
+				}
 				if cc != nil {
 					a, b2 := c.E.callMod(c.F, cc)
 					ex = append(ex, a...)
@@ -134,7 +139,7 @@ func (c *FnCtx) loopNames(l *Loop, phiVal func(*ssa.Phi) Val) map[string]Val {
 							v.GT = d.X.Type()
 						}
 						if d.IsAddr {
-							v = Val{T: v.T, S: v.S, Place: v.Place, Fn: nil}
+							v = Val{T: v.T, S: v.S, Place: v.Place, Fn: nil, GT: d.X.Type()}
 							names["&"+id.Name] = v
 							continue
 						}
